@@ -406,6 +406,34 @@ fn part_codec() -> PartResult {
             r.violations.push(fv("fun:codec", finding("codec:panic", format!("line of {} bytes aborted a connection task", total)), json!({"len": n})));
         }
     }
+    // an unterminated fragment in front of the end of the stream is not a line: the
+    // complete line before it is executed, the fragment is not
+    for frag in [&b"PRIVMSG bob :half a li"[..], b"NOTICE bob :frag", b"PRIVMSG bob :frag with cr\r", b"PRIVMSG bob", b"P"] {
+        r.evaluations += 1;
+        let mut w = World::new(Cfg::default().main_config(), 2);
+        if w.register(0, "me", "mu").is_err() || w.register(1, "bob", "bu").is_err() {
+            r.machinery = Some("setup".into());
+            break;
+        }
+        w.take_all();
+        let mut bytes = b"PRIVMSG bob :whole line\r\n".to_vec();
+        bytes.extend_from_slice(frag);
+        w.write_raw(0, &bytes);
+        let _ = w.pump_socket(0);
+        let _ = w.eof(0);
+        // a server that treats the fragment as a line needs one more read to see the end
+        let _ = w.pump_socket_one(0);
+        let _ = w.settle();
+        let bobs = w.take_lines(1);
+        let whole = bobs.iter().filter(|l| l.contains("whole line")).count();
+        let partial = bobs.iter().any(|l| l.contains("half a li") || l.contains("frag"));
+        if whole != 1 || partial {
+            r.violations.push(fv("fun:codec", finding("codec:fragment-at-eof", format!("complete line + unterminated fragment {:?} + end of stream: receiver got {:?}", String::from_utf8_lossy(frag), bobs)), json!({"fragment": String::from_utf8_lossy(frag)})));
+        }
+        if w.conns.iter().any(|c| matches!(c.life, Life::Panicked(_))) {
+            r.violations.push(fv("fun:codec", finding("codec:panic", format!("fragment {:?} at end of stream aborted a connection task", String::from_utf8_lossy(frag))), json!({"fragment": String::from_utf8_lossy(frag)})));
+        }
+    }
     // empty lines, blank runs
     for raw in [&b"\r\n"[..], b"\n", b"   \r\n", b"\r\n\r\n\r\nPING x\r\n", b"  \r\n \r\nPING x\r\n"] {
         r.evaluations += 1;
